@@ -482,7 +482,17 @@ impl World {
     pub fn sign_tx(&self, signer_idx: u8, nonce: u64, to: Option<Address>, input: Vec<u8>, chain_ok: bool) -> Vec<u8> {
         let s = signer(signer_idx % N_SIGNERS);
         let tx = TxLegacy {
-            chain_id: Some(if chain_ok { self.chain_id() } else { self.chain_id() ^ 0xff }),
+            // "not of this chain" comes in three shapes, chosen by the transaction's own content: another chain id,
+            // the neighbouring chain id, and a pre-EIP-155 signature that commits to no chain at all
+            chain_id: if chain_ok {
+                Some(self.chain_id())
+            } else {
+                match (nonce + input.len() as u64 + signer_idx as u64) % 3 {
+                    0 => None,
+                    1 => Some(self.chain_id() ^ 0xff),
+                    _ => Some(self.chain_id() + 1),
+                }
+            },
             nonce,
             gas_price: 0,
             gas_limit: 0,
@@ -1053,11 +1063,33 @@ impl World {
     }
 
     pub fn exec_read(&mut self, r: &ReadOp) -> Vec<Resp> {
+        self.exec_read_at(r, None)
+    }
+
+    fn block_sel(&self, sel: &BlockSel) -> Value {
+        let h = self.height.unwrap_or(0);
+        match sel {
+            BlockSel::Latest => json!("latest"),
+            BlockSel::Pending => json!("pending"),
+            BlockSel::Earliest => json!("earliest"),
+            BlockSel::Back(n) => json!(format!("0x{:x}", h.saturating_sub(*n as u64))),
+            BlockSel::Ahead(n) => json!(format!("0x{:x}", h + *n as u64)),
+            BlockSel::DecimalBack(n) => json!(format!("{}", h.saturating_sub(*n as u64))),
+            BlockSel::Garbage => json!("0xzz"),
+        }
+    }
+
+    fn exec_read_at(&mut self, r: &ReadOp, block: Option<Value>) -> Vec<Resp> {
         let mut out = vec![];
+        let blk = block.clone().unwrap_or(Value::Null);
         match r {
+            ReadOp::AtBlock { sel, read } => {
+                let b = self.block_sel(sel);
+                return self.exec_read_at(read, Some(b));
+            }
             ReadOp::EthCall { from, to, data, deploy } => {
                 let o = self.eth_call_obj(from, to, data, deploy);
-                out.push(self.call("eth_call", json!([o])));
+                out.push(self.call("eth_call", if block.is_some() { json!([o, blk]) } else { json!([o]) }));
             }
             ReadOp::EthCallMany { calls, overrides } => {
                 let cs: Vec<Value> = calls.iter().map(|(f, t, d)| self.eth_call_obj(f, t, d, &None)).collect();
@@ -1066,19 +1098,19 @@ impl World {
                     let txids: Vec<String> = (0..n).map(|i| txid_for(9000 + i as u32)).collect();
                     out.push(self.call(
                         "eth_callMany",
-                        json!([cs, Value::Null, {"opReturnTxIds": txids, "bitcoinTxHexes": {}}]),
+                        json!([cs, blk, {"opReturnTxIds": txids, "bitcoinTxHexes": {}}]),
                     ));
                 } else {
-                    out.push(self.call("eth_callMany", json!([cs])));
+                    out.push(self.call("eth_callMany", if block.is_some() { json!([cs, blk]) } else { json!([cs]) }));
                 }
             }
             ReadOp::EstimateGas { from, to, data } => {
                 let o = self.eth_call_obj(from, to, data, &None);
-                out.push(self.call("eth_estimateGas", json!([o])));
+                out.push(self.call("eth_estimateGas", if block.is_some() { json!([o, blk]) } else { json!([o]) }));
             }
             ReadOp::EstimateGasMany { calls } => {
                 let cs: Vec<Value> = calls.iter().map(|(f, t, d)| self.eth_call_obj(f, t, d, &None)).collect();
-                out.push(self.call("eth_estimateGasMany", json!([cs])));
+                out.push(self.call("eth_estimateGasMany", if block.is_some() { json!([cs, blk]) } else { json!([cs]) }));
             }
             ReadOp::Balance { who, ticker } => {
                 let pk = match who {
